@@ -469,7 +469,8 @@ class Feedback:
 
     @classmethod
     def override(cls, report=MAIN_REPORT, **fields):
-        if cls._override_backups is None:
+        if '_override_backups' not in cls.__dict__:
+            # Each class needs its own backups; an inherited dictionary would be shared
             cls._override_backups = {}
         for field, new_value in fields.items():
             if field not in cls._override_backups:
